@@ -369,7 +369,8 @@ class Interp:
                     "digits", "printable", "punctuation", "whitespace",
                     "hexdigits", "octdigits")}),
             "textwrap": StubModule("textwrap", {"indent": _textwrap.indent}),
-            "re": StubModule("re", {"sub": _re_sub, "escape": re.escape}),
+            "re": StubModule("re", {"sub": _re_sub, "escape": re.escape,
+                                    "compile": re.compile}),
             "secrets": StubModule("secrets", {"token_hex": _token_hex}),
             "collections": StubModule(
                 "collections", {"deque": collections.deque}),
@@ -542,7 +543,8 @@ class Interp:
             if attr == "__name__":
                 return "function"
         if isinstance(obj, (str, list, tuple, dict, set, frozenset, int,
-                            collections.deque, bytes, range, type(iter([])),
+                            collections.deque, bytes, range, re.Pattern,
+                            type(iter([])),
                             type(iter("")), type(iter(())), float)) \
                 or type(obj).__name__.endswith("iterator") \
                 or isinstance(obj, type):
